@@ -363,7 +363,7 @@ def run(tier, seed):
     chk = Check("C02", tier, seed, "other")
     ok, sites, failing = rule_exact()
     chk.add_rule("C02.S.exact", ok, sites, failing)
-    n = 24 if tier == "quick" else 400
+    n = 24 if tier == "quick" else 1500
     res = [x for r in harness.pmap(_work, [(seed, i) for i in range(n)]) for x in r]
     res += large_magnitudes()
     res += constraint_rank_sequences()
